@@ -1,6 +1,7 @@
 """C03 - sources and single-input operators compute their documented sequence."""
 import os
 from common import *
+import xcheck
 import gen
 
 
@@ -69,7 +70,8 @@ def run(tier, seed, replay=None):
     if not build_stage(rep):
         return rep.finish()
     cases = load_replay_case(replay) if replay else make_cases(tier, rng)
-    correspond(rep, "C03", cases, "C03_cold_pipeline / C03_hot_pipeline")
+    res = correspond(rep, "C03", cases, "C03_cold_pipeline / C03_hot_pipeline")
+    xcheck.cross_check(rep, "C03", cases, res, 60 if tier == "quick" else 600)
     hist = {}
     for _, _, tags in cases:
         k = tags["op"].split("+")[0]
